@@ -32,6 +32,10 @@ CHECKS['C04'] = (OTHER, 'symbolic execution of the real Panel.calc_kM over de-Cy
     'Bounded symbolic verification for all real mu, thicknesses, offset of either sign, geometry, flags, sub-intervals: translational, coupling, rotary terms; tiling; placement; unit rigid translation gives mu*h*area.',
     'Bounds per evidence; reals; atoms = exact integrals (C10); PD and frequency invariance are corollaries of the proven energy form.',
     'DESIGN.md section 4 C04')
+CHECKS['C09'] = ('model_checking', 'path-forking symbolic execution of the unmodified _solver_NR/Analysis.static (re-execution under decision prefixes, z3 feasibility query per branch): residual norms and line-search products symbolic, vectors as provenance tokens; per-path monitors; violating paths replayed with concrete residual sequences on the real driver',
+    'Bounded exhaustive exploration of all histories of convergence/divergence/too-slow/iteration-limit outcomes with K free residuals (quick 6, thorough 8) and 2 free line searches over a grid of concrete increment settings: reported states equilibrated for their load factor, load factors strictly increasing in (0,1], snapshots unmodified, bounded steps, final state.',
+    'Histories beyond K non-benign residuals, settings outside the grid and the arc-length solver are outside; user callables opaque; sparse.solve stubbed; one recorded known finding (final factor within 1e-3 of 1).',
+    'DESIGN.md section 4 C09')
 NA = {
     'C15': 'eigenvalue monotonicity/convergence for pencils of size 48..768 is not a bounded first-order query any installed solver can decide; the algebraic ingredients (exact Hessians, exact tables, nestedness) are decided under C02-C04 and C10 (DESIGN.md section 5)',
 }
